@@ -151,7 +151,7 @@ class RawValue(Harness):
         return result(f"case{case}", obl, observe={"cls": "ran"}, inputs=inputs)
 
 
-TWICE = ("integer", "boolean", "enumerated", "calibrated", "string", "binary", "boolean-of-float")
+TWICE = ("integer", "boolean", "enumerated", "calibrated", "context-calibrated", "string", "binary", "boolean-of-float")
 ENUM = {0: "OFF", 1: "ON", 255: "ALL"}
 
 
@@ -168,6 +168,10 @@ def build_twice(lib, kind):
         K = lib.calibrators
         return T.IntegerParameterType("T", E.IntegerDataEncoding(8, "unsigned", default_calibrator=K.PolynomialCalibrator(
             [K.PolynomialCoefficient(1.5, 0), K.PolynomialCoefficient(2.0, 1)])))
+    if kind == "context-calibrated":       # the context refers to the field's own raw value: holds for some fields and not for others
+        K, C = lib.calibrators, lib.comparisons
+        return T.IntegerParameterType("T", E.IntegerDataEncoding(8, "unsigned", context_calibrators=[K.ContextCalibrator(
+            [C.Comparison("100", "T_SELF", operator=">=", use_calibrated_value=False)], K.PolynomialCalibrator([K.PolynomialCoefficient(-1.0, 0), K.PolynomialCoefficient(0.5, 1)]))]))
     if kind == "string":
         return T.StringParameterType("T", E.StringDataEncoding(fixed_raw_length=8))
     if kind == "binary":
@@ -273,7 +277,7 @@ def concrete(req):
         import warnings
 
         class L:
-            from space_packet_parser.xtce import calibrators, encodings, parameter_types
+            from space_packet_parser.xtce import calibrators, comparisons, encodings, parameter_types
         from space_packet_parser import packets as P
         pt = build_twice(L, i["kind"])
         b1, b2 = bytes.fromhex(i["b1"]["hex"]), bytes.fromhex(i["b2"]["hex"])
